@@ -1,6 +1,10 @@
 SPECIFICATION TraceSpec
 CONSTANTS
   TraceFile = "trace.ndjson"
+  MinTimeout = 10000
+  RetrySlack = 90000
+  SchedSlack = 2000
+  GapBound <- GapBoundMs
 CONSTRAINT HighWater
 POSTCONDITION TraceAccepted
 CHECK_DEADLOCK FALSE
